@@ -1,16 +1,19 @@
 #!/usr/bin/env python3
-"""tools/refresh_seeds.py [id ...] -- re-run every quick check against each kept seeded defect (scratch copies of the sources,
+"""tools/refresh_seeds.py [--own] [id ...] -- re-run every quick check against each kept seeded defect (scratch copies of the sources,
 /repo is not touched) and refresh detected_by_checks / detected_by_rules in seeded/<id>/meta.json.  Exit 1 if the check of the
 seed's own property does not report it."""
 import json, os, subprocess, sys
 from concurrent.futures import ThreadPoolExecutor
 ROOT = os.path.dirname(os.path.dirname(os.path.abspath(__file__)))
-ids = sys.argv[1:] or sorted(os.listdir(os.path.join(ROOT, 'seeded')))
+OWN_ONLY = '--own' in sys.argv
+ids = [a for a in sys.argv[1:] if a != '--own'] or sorted(os.listdir(os.path.join(ROOT, 'seeded')))
 
 
 def one(sid):
     dst = os.path.join(ROOT, 'seeded', sid)
-    out = subprocess.run([sys.executable, os.path.join(ROOT, 'tools', 'try_seed.py'), '--scratch', os.path.join(dst, 'patch.diff')],
+    mp0 = json.load(open(os.path.join(dst, 'meta.json')))
+    extra = [mp0['property']] if OWN_ONLY else []
+    out = subprocess.run([sys.executable, os.path.join(ROOT, 'tools', 'try_seed.py'), '--scratch', os.path.join(dst, 'patch.diff')] + extra,
                          capture_output=True, text=True).stdout
     fired = [l for l in out.splitlines() if l.startswith('FIRED:')]
     fired = [x for x in (fired[0].split()[1:] if fired else []) if x != 'none']
@@ -18,8 +21,13 @@ def one(sid):
     rules = sorted(set(l.split()[1] for l in out.splitlines() if l.strip().startswith('rule ')))
     mp = os.path.join(dst, 'meta.json')
     m = json.load(open(mp))
-    m['detected_by_checks'] = [x for x in fired if x not in broken]
-    m['detected_by_rules'] = rules
+    if OWN_ONLY:
+        # only the seed's own property was re-run: merge with what was recorded before
+        m['detected_by_checks'] = sorted(set([x for x in m.get('detected_by_checks', []) if x != m['property']]) | set(x for x in fired if x not in broken))
+        m['detected_by_rules'] = sorted(set([r for r in m.get('detected_by_rules', []) if not r.startswith(m['property'] + '.')]) | set(rules))
+    else:
+        m['detected_by_checks'] = [x for x in fired if x not in broken]
+        m['detected_by_rules'] = rules
     if broken:
         m['analysis_broken_in'] = broken
     else:
@@ -29,7 +37,7 @@ def one(sid):
 
 
 bad = 0
-with ThreadPoolExecutor(max_workers=3) as ex:
+with ThreadPoolExecutor(max_workers=(6 if OWN_ONLY else 3)) as ex:
     for sid, prop, fired, rules, broken in ex.map(one, ids):
         own = prop in fired
         print('%-10s own=%s fired=%s rules=%s%s' % (sid, 'yes' if own else 'NO', ','.join(fired), ','.join(rules),
